@@ -102,7 +102,14 @@ class NPShim:
                 return _np.frompyfunc(lambda x, y: NPShim.isclose(x, y, rtol, atol), 2, 1)(a, b)
             d = a - b
             bound = atol + rtol * (real.abs_s(b) if isinstance(b, S) else abs(b))
-            return (real.abs_s(d) if isinstance(d, S) else abs(d)) <= bound
+            res = (real.abs_s(d) if isinstance(d, S) else abs(d)) <= bound
+            ctx = real._CUR[0]
+            ex = getattr(ctx, "explorer", None) if ctx is not None else None
+            if ex is not None and isinstance(res, SBool):
+                # decided here, under the 'single-flip' policy (see Explorer.run)
+                with ex.policy("single-flip"):
+                    return bool(res)
+            return res
         return _np.isclose(a, b, rtol=rtol, atol=atol, equal_nan=equal_nan)
 
     @staticmethod
